@@ -166,7 +166,7 @@ func colDataTypes(rm engine.RelationManager, table string, dstCols []string) ([]
 
 	q, err := p.Parse()
 	if err != nil {
-		return nil, nil
+		return nil, err
 	}
 
 	rows, _, err := engine.EvaluateSelect(q.(sql.Select), rm)
